@@ -15,5 +15,5 @@ else
   rm -f _CoqProject.new
 fi
 [ -f Makefile ] || coq_makefile -f _CoqProject -o Makefile >/dev/null
-timeout 7200 make -j16 "$@"
+timeout 2400 make -j16 "$@"
 if [ $# -eq 0 ]; then /verif/build_driver.sh; fi
